@@ -588,7 +588,12 @@ def gen_case(rng, K, BB, model, cls, z, names, focus=None, focus_unit=None, ntab
             elif n == 'slope':
                 args[n] = None       # needs the converted amplitude, below
             else:                    # alpha, alpha_1, alpha_2, beta
-                v = dyf(rng, 0, 0.5, 6) if n == 'beta' else dyf(rng, -3, 3, 6)
+                if n == 'beta':
+                    v = dyf(rng, 0, 0.5, 6)
+                elif model == 'PowerLawFlux1D' and amp_unit in MAGS:
+                    v = dyf(rng, -0.5, 0.5, 6)    # a power law *in magnitudes*: keep 10**(-0.4 m) inside binary64
+                else:
+                    v = dyf(rng, -3, 3, 6)
                 s = 100.0 if un == 'percent' else 1.0
                 args[n] = {'v': qs([v * s]), 'u': un}
         if 'slope' in names:
@@ -810,7 +815,7 @@ RULE = ('SourceSpectrum (z in {0, 1/2, 3}) and SpectralElement constructors on e
         'in each compatible unit (number, AA, nm, micron, m, Hz, THz, 1/micron, eV; PHOTLAM, FLAM, FNU, Jy, mJy, PHOTNU, ABmag, '
         'STmag; dimensionless, percent; K, mK, kK; erg/s/cm2, W/m2) with the other parameters in random units; then random '
         'requests; reference wavelengths 1000-20000 A (dyadic), widths 10 A .. ref/6, linear fluxes log-uniform over 24 decades '
-        '(8% negative), magnitudes in [-5, 30], tables of 2-6 (thorough 2-24) points in either order; 16 sample wavelengths '
+        '(8% negative), magnitudes in [-5, 30] (power laws in magnitudes: |alpha| <= 1/2), tables of 2-6 (thorough 2-24) points in either order; 16 sample wavelengths '
         'around the feature scaled by 1+z (box: never within 0.1 width of a jump). Invalid requests: count / mag(OB) / mag(VEGA) / '
         'non-flux amplitudes on a source, unsupported and non-model classes, n_models != 1, dimensioned throughput, non-spectral '
         'wavelength units, wrong temperature / exponent / total-flux units, missing reference parameter, zero frequency. '
